@@ -28,7 +28,9 @@ RULE = ("random histories of 2-30 steps over {call, acked/unacked publish, subsc
         "ending drained / with requests outstanding / with a reply matching no pending request; plus enumerated families: all k! reply "
         "orders of k outstanding requests of mixed kinds (k<=6; quick: 2 mixes at k=6, thorough: 6), every (violation class x reply type x "
         "variant), every option of every option class, progressive-result shapes x details, request ids across the 2^53 boundary, send "
-        "failures x failure class x serializer, every (callback site x nested request kind). A case is non-trivial when at least one "
+        "failures x failure class x serializer, every (callback site x nested request kind), 2-4 handlers sharing one subscription id x which one is "
+        "unsubscribed first (local unsubscribes, then every request kind, then the last handler's UNSUBSCRIBE); random histories also let subscribes join a "
+        "live subscription id. A case is non-trivial when at least one "
         "router reply/unmatched reply was delivered and compared; distinct = hash(framework, transport config, step list).")
 ASSUMPTIONS = [
     "the scripted router only sends messages a conforming router could send, except for the final 'violate' step",
@@ -42,9 +44,12 @@ ASSUMPTIONS = [
     "nothing was returned to the application and the statement is silent about it; such a record must never be resolved with a value",
     "a reply matching no pending request must fail the transport (WebSocket: close code 1002 when failByDrop=False, otherwise a drop; RawSocket: abort) "
     "and must not change any request's outcome; what happens to still-pending requests afterwards is only checked for 'at most once, never a value'",
+    "several handlers on one subscription id (the scripted broker grants the id of a live subscription to a further subscribe of the same topic/match): an "
+    "unsubscribe while other handlers stay attached must send nothing and spend no request id, its future completes exactly once and successfully (value "
+    "not asserted); only the last handler's unsubscribe sends UNSUBSCRIBE with the next sequential id; which handler sees whose details kwarg is left to C11",
     "pending-table sizes (_call_reqs ...) and txaio.resolve/reject attempt counts are hooks for leak / double-completion detection",
     "the 2^53 boundary is reached by presetting IdGenerator._next after the join",
-    "not generated (grey zones): float timeouts, several handlers on one subscription id, progressive results for calls without on_progress, "
+    "not generated (grey zones): float timeouts, an unsubscribe of the last handler racing with an in-flight subscribe to the same subscription id, progressive results for calls without on_progress, "
     "events for a subscription whose unsubscribe is in flight, reserved kwarg names of CallResult/ApplicationError, payload encryption, call cancellation, "
     "correlation_* options (never serialized), forward_for entries with authid None (accepted by CallOptions, refused by PublishOptions)",
 ]
@@ -62,6 +67,8 @@ DECIDING = {
     "table_sizes_compared": 1000, "quiescence_checks": 100, "events_delivered": 20, "invocations_delivered": 20,
     "attempt_counts_checked": 500, "ids_at_2^53": 10, "ids_wrapped_to_1": 10, "send_failures_unserializable": 30,
     "send_failures_oversize": 10, "replies_split_across_reads": 50, "nested_requests_verified": 100,
+    "shared_subscriptions_established": 100, "local_unsubscribes_checked": 100, "ids_checked_after_local_unsubscribe": 500,
+    "events_to_shared_subscription": 50,
 }
 
 SERIALIZERS = ["json", "cbor", "msgpack", "ubjson"]
@@ -284,12 +291,16 @@ class Gen:
         self.pending = {}       # label -> {"kind", "on_progress"}
         self.answered = []      # (label, kind, mode, on_progress)
         self.live_subs = []
+        self.groups = {}        # root subscribe label -> {"id", "live": [labels], "inflight", "closed", "uri", "opts"}: handlers sharing one subscription id
+        self.group_of = {}
+        self.share = False      # random histories: let subscribes join an existing subscription id
         self.live_regs = []
         self.sub_ids = set()
         self.reg_ids = set()
         self.inv_ids = set()
         self.nviol = 0
         self.split_replies = False
+        self.local_unsubs = []
 
     def label(self):
         self.n += 1
@@ -311,11 +322,13 @@ class Gen:
         rng = self.rng
         if kind is None:
             kinds = ["call"] * 5 + ["publish"] * 3 + ["publish_unack"] + ["subscribe"] * 2 + ["register"] * 2
-            if self.live_subs:
+            if self.unsubscribable():
                 kinds += ["unsubscribe"] * 2
             if self.live_regs:
                 kinds += ["unregister"] * 2
             kind = rng.choice(kinds)
+            if kind == "subscribe" and self.share and self.shareable() and rng.random() < 0.45:
+                force = dict(force, share=rng.choice(self.shareable()))
         n = self.label()
         if kind == "call":
             a, k = self.pay.request("c%d" % n, force.get("shape"))
@@ -329,20 +342,46 @@ class Gen:
             self.steps.append({"op": "publish", "n": n, "uri": "com.c04.topic.n%d" % n, "args": a, "kwargs": k, "opts": o})
             if ack:
                 self.pending[n] = {"kind": "publish"}
+        elif kind == "subscribe" and force.get("share"):
+            # one more handler for a topic this session is already subscribed to: the broker will answer with the SAME subscription id
+            root = self.group_of[force["share"]]
+            g = self.groups[root]
+            o = force["opts"] if "opts" in force else dict(g["opts"] or {})
+            if "opts" not in force:
+                for k in ("details", "details_arg"):
+                    o.pop(k, None)
+                r = rng.random()
+                if r < 0.3:
+                    o["details"] = True
+                elif r < 0.5:
+                    o["details_arg"] = rng.choice(["details", "info"])
+                o = o or (None if rng.random() < 0.5 else {})
+            self.steps.append({"op": "subscribe", "n": n, "uri": g["uri"], "opts": o})
+            self.pending[n] = {"kind": "subscribe"}
+            self.group_of[n] = root
+            g["inflight"] += 1
         elif kind == "subscribe":
             o = force["opts"] if "opts" in force else gen_subscribe_opts(rng)
             uri = "com.c04..s%d" % n if (o or {}).get("match") == "wildcard" and rng.random() < 0.5 else "com.c04.sub.n%d" % n
             self.steps.append({"op": "subscribe", "n": n, "uri": uri, "opts": o})
             self.pending[n] = {"kind": "subscribe"}
+            self.group_of[n] = n
+            self.groups[n] = {"id": None, "live": [], "inflight": 0, "closed": False, "uri": uri, "opts": o}
         elif kind == "register":
             o = force["opts"] if "opts" in force else gen_register_opts(rng)
             self.steps.append({"op": "register", "n": n, "uri": "com.c04.reg.n%d" % n, "opts": o})
             self.pending[n] = {"kind": "register"}
         elif kind == "unsubscribe":
-            of = force.get("of") or rng.choice(self.live_subs)
+            of = force.get("of") or rng.choice(self.unsubscribable())
             self.live_subs.remove(of)
+            g = self.groups[self.group_of[of]]
+            g["live"].remove(of)
             self.steps.append({"op": "unsubscribe", "n": n, "of": of})
-            self.pending[n] = {"kind": "unsubscribe"}
+            if g["live"]:
+                self.local_unsubs.append(n)      # other handlers stay attached: completes locally, no UNSUBSCRIBE, nothing pending
+            else:
+                g["closed"] = True
+                self.pending[n] = {"kind": "unsubscribe"}
         elif kind == "unregister":
             of = force.get("of") or rng.choice(self.live_regs)
             self.live_regs.remove(of)
@@ -351,6 +390,20 @@ class Gen:
         else:
             raise ValueError(kind)
         return n
+
+    def shareable(self):
+        """Live subscriptions whose id a further subscribe may be granted."""
+        return [l for l in self.live_subs if not self.groups[self.group_of[l]]["closed"]]
+
+    def unsubscribable(self):
+        """Live subscriptions that may be unsubscribed now: not the LAST handler of an id while a subscribe sharing it is still in flight
+        (a broker would answer that race either way)."""
+        out = []
+        for l in self.live_subs:
+            g = self.groups[self.group_of[l]]
+            if len(g["live"]) > 1 or not g["inflight"]:
+                out.append(l)
+        return out
 
     def sendfail(self):
         rng = self.rng
@@ -381,12 +434,15 @@ class Gen:
             else:
                 mode = "ok" if rng.random() < 0.68 else "error"
         st = {"op": "reply", "to": label, "mode": mode}
+        if kind == "subscribe" and mode != "progress":
+            if self.group_of[label] != label:
+                self.groups[self.group_of[label]]["inflight"] -= 1
+            elif mode == "error":
+                self.groups[label]["closed"] = True
         if mode == "error":
             a, k = self.pay.reply("e%d" % label, shape)
             st.update(error=rng.choice(ERR_URIS), args=a, kwargs=k)
         elif kind == "call":
-            if mode == "progress" and p.get("details") and shape is None and rng.random() < 0.6:
-                shape = rng.choice(["kw", "both"])      # keep most details+progress histories clear of the known S-04 input class
             a, k = self.pay.reply(("g%d" if mode == "progress" else "r%d") % label, shape)
             st.update(args=a, kwargs=k)
             if rng.random() < 0.3:
@@ -394,7 +450,11 @@ class Gen:
         elif kind == "publish":
             st["assigned"] = rng.choice([rng.randint(1, 20), rng.randint(1, 2 ** 53)])
         elif kind == "subscribe":
-            st["assigned"] = self.fresh_id(self.sub_ids)
+            g = self.groups[self.group_of[label]]
+            if g["id"] is None:
+                g["id"] = self.fresh_id(self.sub_ids)
+            st["assigned"] = g["id"]
+            g["live"].append(label)
         elif kind == "register":
             st["assigned"] = self.fresh_id(self.reg_ids)
         if self.split_replies and rng.random() < 0.15:
@@ -463,6 +523,7 @@ class Gen:
 def gen_history(rng):
     g = Gen(rng, cfg_random(rng))
     g.split_replies = True
+    g.share = True
     nsteps = rng.randint(2, 30)
     burst = rng.random() < 0.3
     ending = rng.choice(["drain", "drain", "violate", "violate", "leave"])
@@ -815,6 +876,63 @@ def nested_case(spec, i, cfg):
     return g.case()
 
 
+# -- enumerated: several handlers on ONE subscription id, partial (local) unsubscribes, id continuity afterwards ----
+def shared_cases():
+    out = []
+    for nh in (2, 3, 4):                       # handlers sharing the subscription id
+        for first in range(nh):                # which of them is unsubscribed first
+            for variant in range(4):
+                out.append((nh, first, variant))
+    return out
+
+
+def shared_case(spec, i, cfg):
+    nh, first, variant = spec
+    g = Gen(random.Random(19000 + i), cfg)
+    if variant & 1:
+        g.issue("call")                                         # the shared subscribes do not start at id 1
+    root = g.issue("subscribe", opts={"match": "prefix"} if variant & 2 else None)
+    other = g.issue("subscribe")                                # an unrelated subscription with its own id
+    r0 = g.issue("register")
+    if variant & 1:
+        # all SUBSCRIBE requests in flight together cannot share yet (no id known): the first is answered, the rest join afterwards
+        g.reply(r0, "ok")
+        g.reply(root, "ok")
+        members = [root] + [g.issue("subscribe", share=root) for _ in range(nh - 1)]
+        for l in reversed(members[1:]):
+            g.reply(l, "ok")
+        g.reply(other, "ok")
+    else:
+        g.reply(root, "ok")
+        members = [root]
+        for _ in range(nh - 1):
+            l = g.issue("subscribe", share=root)
+            g.reply(l, "ok")
+            members.append(l)
+        g.reply(other, "ok")
+        g.reply(r0, "ok")
+    g.event(root)
+    order = members[first:] + members[:first]
+    for j, m in enumerate(order[:-1]):
+        g.issue("unsubscribe", of=m)                            # LOCAL: others are still attached - no UNSUBSCRIBE, no id spent
+        # every kind of request afterwards: the wire ids must continue without a gap
+        batch = [g.issue("call", opts={"on_progress": True} if j == 0 else None), g.issue("publish"), g.issue("publish_unack"),
+                 g.issue("subscribe"), g.issue("register")]
+        if j == 0:
+            batch.append(g.issue("unsubscribe", of=other))      # a real UNSUBSCRIBE (single handler) right after a local one
+            batch.append(g.issue("unregister", of=r0))
+        g.event(order[-1])                                      # the remaining handlers still get events
+        pend = [l for l in batch if l in g.pending]
+        for l in (reversed(pend) if (i + j) % 2 else pend):
+            g.reply(l, "error" if (l + i) % 4 == 0 else "ok")
+    last = g.issue("unsubscribe", of=order[-1])                 # last handler: UNSUBSCRIBE with the next sequential id
+    after = g.issue("call")
+    g.reply(after, "ok")
+    g.reply(last, "error" if variant == 3 else "ok")
+    g.reply(g.issue("publish"), "ok")
+    return g.case()
+
+
 def enumerated(tier):
     items = perm_cases(tier)
     vs = violation_cases()
@@ -827,6 +945,8 @@ def enumerated(tier):
         items += [("prog", (i, j)) for i in range(len(progress_cases()))]
     for j in range(2 if tier == "quick" else 8):
         items += [("nested", (i, j)) for i in range(len(nested_cases()))]
+    for j in range(3 if tier == "quick" else 10):
+        items += [("shared", (i, j)) for i in range(len(shared_cases()))]
     items += [("idwrap", (i,)) for i in range(40 if tier == "quick" else 200)]
     items += [("sendfail", (i,)) for i in range(48 if tier == "quick" else 240)]
     return items
@@ -850,6 +970,9 @@ def build(item):
     if fam == "nested":
         i, j = a
         return nested_case(nested_cases()[i], i + j, cfg_rot(i + 3 * j))
+    if fam == "shared":
+        i, j = a
+        return shared_case(shared_cases()[i], i + 7 * j, cfg_rot(i + 3 * j))
     if fam == "idwrap":
         return idwrap_case(a[0], cfg_rot(a[0]))
     if fam == "sendfail":
@@ -900,10 +1023,11 @@ MANIFEST_ENTRY = {
              "the next sequential id (1.., also across 2^53 by presetting the generator), the given URI/args/kwargs and the option->wire table; "
              "every returned Deferred/Future completes exactly once, only by the reply bearing its id and type, with that reply's content "
              "(value / CallResult / ApplicationError); progressive results reach only their own on_progress; unmatched replies fail the "
-             "transport (1002) and complete nothing; a failed send leaves no pending call/publish record; pending tables match the model at "
+             "transport (1002) and complete nothing; a failed send leaves no pending call/publish record; with several handlers on one subscription id a partial unsubscribe sends "
+             "nothing, spends no request id and completes once, the last one sends UNSUBSCRIBE with the next id; pending tables match the model at "
              "every step. All k! reply orders for k<=6 outstanding mixed requests are enumerated. Held = no deviation on the executions in the evidence."),
     "note": ("trusts vf/c04_model.py (spec tables), vf/wamp_harness.py, the plain serializer libraries on the router side; pending-table sizes and "
-             "txaio.resolve/reject attempt counts are hooks; payload encryption, call cancellation, shared subscription ids and float timeouts are not driven; "
+             "txaio.resolve/reject attempt counts are hooks; payload encryption, call cancellation and float timeouts are not driven; "
              "a subscribe/register record kept after a failed (oversize) send is observed, not judged"),
     "technique": "runtime monitoring: recorded API/wire/completion history checked online against a sequential request-reply model, exhaustive reply permutations + seeded adversarial histories",
 }
